@@ -108,6 +108,12 @@ def _mk():
     add("mul_col", "{0} * {0}[:, :1]", cond=D2, fam="elem")
     add("ufunc_where", "{m}.add({0}, 1, where={0} > 12, out=None)", rewrite=False, cond="False", fam="elem")  # out=None+where yields uninit in numpy
 
+    # creation leaves under an elemwise (slices/rechunks above get pushed into them)
+    add("plus_arange", "{0} + {m}.arange({0}.shape[0], chunks=2)", "{0} + {m}.arange({0}.shape[0])", cond="a0.ndim==1 and a0.dtype.kind in 'fi'", fam="elem")
+    add("plus_ones", "{0} + {m}.ones({0}.shape, chunks=2)", "{0} + {m}.ones({0}.shape)", cond="a0.ndim>=1 and a0.dtype.kind in 'fi'", fam="elem")
+    add("plus_linspace", "{0} + {m}.linspace(0, 1, {0}.shape[0], chunks=3)", "{0} + {m}.linspace(0, 1, {0}.shape[0])", exact=False, cond="a0.ndim==1 and a0.shape[0]>=2 and a0.dtype.kind=='f'", fam="elem")
+    add("plus_full", "{0} * {m}.full({0}.shape, 2.0, chunks=2)", "{0} * {m}.full({0}.shape, 2.0)", cond="a0.ndim>=1 and a0.dtype.kind=='f'", fam="elem")
+
     # ---- axes
     add("T", "{0}.T", fam="axes")
     add("tr_10", "{m}.transpose({0}, (1, 0))", cond="a0.ndim==2", fam="axes")
@@ -215,6 +221,9 @@ def _mk():
     add("ovl_periodic_d2", "{m}.map_overlap(uf.ov_sumd, {0}, depth={{0: 2}}, boundary='periodic', dtype={0}.dtype, d=2)", "uf.np_ov_sumd({0}, 2, 'periodic')", exact=False, cond="a0.ndim>=1 and a0.shape[0]>=2 and a0.dtype.kind=='f'", fam="window")
     add("ovl_reflect_d2", "{m}.map_overlap(uf.ov_sumd, {0}, depth={{0: 2}}, boundary='reflect', dtype={0}.dtype, d=2)", "uf.np_ov_sumd({0}, 2, 'reflect')", exact=False, cond="a0.ndim>=1 and a0.shape[0]>=2 and a0.dtype.kind=='f'", fam="window")
     add("ovl_none_d1", "{m}.map_overlap(uf.ov_sumd, {0}, depth={{0: 1}}, boundary='none', dtype={0}.dtype, d=1)", "uf.np_ov_sumd({0}, 1, 'none')", exact=False, cond=NE + " and a0.dtype.kind=='f'", fam="window")
+
+    add("bn_move_sum3", "{m}.map_overlap(__import__('bottleneck').move_sum, {0}, depth={{0: (2, 0)}}, boundary='none', window=3, min_count=1, axis=0, dtype={0}.dtype)", "__import__('bottleneck').move_sum({0}, window=3, min_count=1, axis=0)", exact=False, cond="a0.ndim>=1 and a0.shape[0]>=3 and a0.dtype==np.float64", fam="window")
+    add("bn_move_max2", "{m}.map_overlap(__import__('bottleneck').move_max, {0}, depth={{0: (1, 0)}}, boundary='none', window=2, axis=0, dtype={0}.dtype)", "__import__('bottleneck').move_max({0}, window=2, axis=0)", exact=False, cond="a0.ndim>=1 and a0.shape[0]>=2 and a0.dtype==np.float64", fam="window")
 
     # ---- map_blocks
     add("mb_double", "{m}.map_blocks(uf.ub_double, {0}, dtype={0}.dtype)", "uf.ub_double({0})", cond="a0.dtype!=bool", fam="mapblocks")
